@@ -57,7 +57,7 @@ def Term.alias? : Term → Option Str
   | .field _ a _ | .complex _ _ _ a | .val _ a | .wrapped _ a | .lit _ a | .neg _ a | .arith _ _ _ a | .basic _ _ _ a
   | .not _ a | .isin _ _ _ a | .between _ _ _ a | .period _ _ _ a | .isnull _ a | .notnull _ a
   | .bitand _ _ a | .all _ a | .tuple _ a | .array _ a | .case _ _ a
-  | .func _ _ _ _ _ _ _ _ _ _ _ _ a | .json _ a | .atTz _ _ _ a => a
+  | .func _ _ _ _ _ _ _ _ _ _ _ _ a | .json _ a | .atTz _ _ _ a | .param _ a => a
   | .sub (.mk fl ..) => fl.alias
   | .setop (.mk _ _ _ _ _ a) => a
   | _ => none
@@ -288,7 +288,7 @@ mutual
             (match frame with | some f => kws " " :: f.doc | none => []) ++ K ")") ++
           opt c.withAlias
             (aliasDoc { c with withAlias := false, withNamespace := false, quote := .absent, dialect := none } c.q alias)
-    | .param text => [.raw text]
+    | .param text alias => [.raw text]
     | .interval iv => [.raw (intervalText c.dia iv)]
     | .json j alias => .str false c.sq j.text :: aliasDoc c c.q alias
     | .pseudo name => [.raw name]
